@@ -15,9 +15,37 @@ static const char **corpus; static unsigned ncorpus;
 static char tmp_path[4200];
 static const char *backend;
 
+/* regression witnesses (corpus/witness-xml): every file is run unmutated by both back ends (cases 2w and 2w+1 belong to workers of
+ * different parity, hence different HWLOC_LIBXML_IMPORT), through the buffer and the file entry point */
+static const char **wit, **witd; static unsigned nwit, nwitd;
+static int try_topology(const char *doc, size_t len, int nul_inside, int byfile, int report, const char *keyprefix, char *wfkey, size_t wfn);
+static void try_diff(const char *doc, size_t len);
+static int witness_case(uint64_t index)
+{
+  uint64_t w = index / 2;
+  if (w >= (uint64_t)nwit + nwitd) return 0;
+  int isd = w >= nwit; const char *path = isd ? witd[w - nwit] : wit[w]; const char *nm = strrchr(path, '/') + 1;
+  size_t len = 0; char *doc = tl_read_file(path, &len);
+  if (!doc) { doc = strdup(""); len = 0; }     /* an empty file is a witness too */
+  hv_desc("witness %s (%zu bytes), unmutated, backend %s\n", nm, len, backend);
+  hv_stat("witness.cases", 1);
+  if (isd) try_diff(doc, len);
+  else {
+    char kp[260]; snprintf(kp, sizeof kp, "witness=%.150s/%s/", nm, backend);
+    for (int byfile = 0; byfile < 2; byfile++) for (int nul = 1; nul >= 0; nul--) { if (byfile && !nul) continue;
+      int r = try_topology(doc, len, nul, byfile, 1, kp, NULL, 0);
+      hv_stat(r == 0 ? "witness.rejected" : r == 1 ? "witness.loaded_wellformed" : "witness.loaded_illformed", 1); }
+  }
+  hv_distinct(3, hv_hash_str(nm, hv_hash_str(backend, 7)));
+  free(doc); unlink(tmp_path);
+  hv_leak_check();
+  return 1;
+}
+
 void hv_setup(void)
 {
   ncorpus = tl_corpus(&corpus);
+  nwit = tl_witness("witness-xml", ".xml", &wit); nwitd = tl_witness("witness-xml", ".diffxml", &witd);
   snprintf(tmp_path, sizeof tmp_path, "%s/c06-w%d.xml", HV.outdir, HV.worker);
   const char *e = getenv("HWLOC_LIBXML_IMPORT");
   backend = (e && atoi(e)) ? "libxml" : "nolibxml";
@@ -362,6 +390,7 @@ static void try_diff(const char *doc, size_t len)
 void hv_case(uint64_t index)
 {
   hv_rng_seed(&R, HV.seed, "c06", index);
+  if (witness_case(index)) return;
   size_t blen = 0; int is_diff = 0; char what[400];
   hv_ctxkey("base_document");
   char *base = base_document(&blen, &is_diff, what, sizeof what);
